@@ -253,7 +253,12 @@ pub(crate) fn blend<S: Sample>(
 
             let base_grid_render = Arc::clone(&grid.image).run_with_image()?;
             let base_grid = base_grid_render.blend(Some(output_image_region), pool)?;
-            assert_eq!(base_grid.color_channels(), color_channels);
+            if base_grid.color_channels() != color_channels {
+                // e.g. VarDCT frame over a grayscale Modular frame
+                return Err(crate::Error::NotSupported(
+                    "blending frames with different number of color channels",
+                ));
+            }
 
             if base_grid.regions_and_shifts()[idx].0.is_empty() {
                 clone_empty = true;
@@ -478,7 +483,11 @@ pub fn patch(
     use jxl_frame::data::PatchBlendMode;
 
     let color_channels = base_grid.color_channels();
-    assert_eq!(patch_ref_grid.color_channels(), color_channels);
+    if patch_ref_grid.color_channels() != color_channels {
+        return Err(crate::Error::NotSupported(
+            "patch source with different number of color channels",
+        ));
+    }
     for target in &patch_ref.patch_targets {
         for (idx, blending_info) in std::iter::repeat_n(&target.blending[0], color_channels)
             .chain(&target.blending[1..])
